@@ -1,20 +1,41 @@
 ----------------------------- MODULE ElicitURLMC -----------------------------
 (* Bounded configurations of ElicitURL (extension check X10, part b).         *)
-(*  ElicitURL_mc.cfg            exhaustive safety, two calls that may name the *)
-(*                              SAME ids (x, y; also x twice in one error),    *)
-(*                              two spurious completions, contexts may end     *)
-(*  ElicitURL_mc3.cfg           thorough: three spurious completions, ids x y z*)
-(*  ElicitURL_distinct.cfg      two calls with disjoint ids: safety incl.      *)
-(*                              U5_CompletionReachesWaiter, and U6_Returns     *)
-(*                              under weak fairness                            *)
-(*  ElicitURL_lead_shared.cfg   shared ids: U5_CompletionReachesWaiter must be *)
-(*                              VIOLATED (deviation E1; the counterexample is  *)
-(*                              replayed on the real client)                   *)
+(* Common constants: lists of at most MaxLen = 2 elicitations, Unknown = "u". *)
+(*  ElicitURL_mc_quick.cfg      quick: exhaustive safety, two calls that may   *)
+(*                              name the SAME id (call 1: [x] or [x,y], call   *)
+(*                              2: [x]), answers ok / urlreq, handler accept / *)
+(*                              herr, one spurious completion, contexts may    *)
+(*                              end                       (84 010 states)      *)
+(*  ElicitURL_mc.cfg            thorough: the same with answers ok / err /     *)
+(*                              urlreq and two spurious completions            *)
+(*                                                        (847 147 states)     *)
+(*  ElicitURL_one.cfg           thorough: one call, every kind of answer (ok   *)
+(*                              err urlreq urlbad urlnourl), lists [] [x] [x,y]*)
+(*                              [x,x], accept / decline / cancel / herr, with  *)
+(*                              and without a handler, four spurious           *)
+(*                              completions; run with -coverage 1              *)
+(*                                                        (428 789 states)     *)
+(*  ElicitURL_live_quick.cfg    quick: one call, Safety +                      *)
+(*                              U5_CompletionReachesWaiter + U6_Returns under  *)
+(*                              weak fairness             (2 266 states)       *)
+(*  ElicitURL_live1.cfg         thorough: one call, everything, U6_Returns     *)
+(*                                                        (186 790 states)     *)
+(*  ElicitURL_distinct.cfg      thorough: two calls with DISJOINT ids: Safety, *)
+(*                              U5_CompletionReachesWaiter, U6_Returns         *)
+(*                                                        (62 155 states)      *)
+(*  ElicitURL_lead_shared.cfg   (module ElicitURLGen) two calls naming the     *)
+(*                              same id: U5_CompletionReachesWaiter must be    *)
+(*                              VIOLATED (deviation E1); the environment steps *)
+(*                              of the counterexample are printed and replayed *)
+(*                              on the real client                             *)
 (*  ElicitURL_lead_decline.cfg  the server owes nothing for a declined         *)
 (*                              elicitation: U6_Returns must be VIOLATED (E2)  *)
-(*  ElicitURL_cover.cfg / _cover_nh.cfg   the graphs handed to                 *)
-(*                              tools/graphwalk.py (with / without a handler)  *)
-(*  ElicitURL_sim.cfg           (module ElicitURLGen) seeded simulation        *)
+(*  ElicitURL_cover1.cfg / ElicitURL_cover.cfg   the one-call and the two-call *)
+(*                              (shared id) graphs handed to                   *)
+(*                              tools/graphwalk.py; the check script derives   *)
+(*                              the per-client-kind variants of cover1         *)
+(*  ElicitURL_sim.cfg           (module ElicitURLGen) seeded simulation: three *)
+(*                              calls, ids x y z, shared and repeated ids      *)
 EXTENDS ElicitURL
 
 ListsShared(c) == IF c = 1 THEN {<<"x">>, <<"x", "y">>} ELSE {<<"x">>}
@@ -24,7 +45,6 @@ FewKinds(c) == IF c = 1 THEN {"ok", "err", "urlreq"} ELSE {"ok", "urlreq"}
 QuickKinds(c) == IF c = 1 THEN {"ok", "urlreq"} ELSE {"urlreq"}
 LiveKinds(c) == IF c = 1 THEN {"ok", "urlreq", "urlnourl"} ELSE {"urlreq"}
 ListsLive(c) == IF c = 1 THEN {<<"x">>, <<"x", "y">>} ELSE {<<"z">>}
-ListsDistinct(c) == IF c = 1 THEN {<<>>, <<"x">>, <<"x", "y">>} ELSE {<<>>, <<"z">>}
 ListsCover(c) == {<<"x">>}
 CoverKinds(c) == {"ok", "urlreq"}
 ListsSim(c) == IF c = 1 THEN {<<>>, <<"x">>, <<"x", "y">>, <<"y", "z">>, <<"x", "x">>}
